@@ -100,6 +100,57 @@ def spec(rng, depth, uns):
         return ["raw", "Pow", [c(), ["rat", 1, 2]]]
     return ["raw", "Pow", [c(), rng.choice([["flt", 1, 2], ["rat", 1, 3], ["flt", 1, 4], ["int", 2]])]]
 
+def lit_value(s, mp):
+    """value of a symbol-free spec (None if it has symbols / unsupported constructs), spec-level so that no huge sympy
+    number is ever built"""
+    t = s[0]
+    if t == "int":
+        return mp.mpf(s[1])
+    if t in ("flt", "rat"):
+        return mp.mpf(s[1]) / s[2]
+    if t == "I":
+        return mp.mpc(0, 1)
+    if t in ("sym", "uns"):
+        return None
+    ch = [lit_value(c, mp) for c in s[2]]
+    if any(c is None for c in ch):
+        return None
+    op = s[1]
+    if op in ("+", "Add"):
+        return mp.fsum(ch)
+    if op in ("*", "Mul"):
+        return mp.fprod(ch)
+    if op == "-":
+        return ch[0] - ch[1]
+    if op == "/":
+        return ch[0] / ch[1]
+    if op in ("**", "Pow"):
+        return mp.power(ch[0], ch[1])
+    if op == "sqrt":
+        return mp.sqrt(ch[0])
+    if op == "neg":
+        return -ch[0]
+    if op == "inv":
+        return 1 / ch[0]
+    return getattr(mp, op)(ch[0])
+
+def tame(s):
+    """replace every symbol-free subtree whose value leaves [1e-30, 1e30] (or does not exist: 0**-1, overflow) by a
+    small constant: such constants overflow doubles in the library's Python-number arithmetic and in the dumps"""
+    import mpmath
+    if s[0] in ("sym", "int", "flt", "rat", "I") or (s[0] == "uns" and not s[2]):
+        return s
+    s = [s[0], s[1], [tame(c) for c in s[2]]]
+    if s[0] == "uns":
+        return s
+    try:
+        with mpmath.workdps(20):
+            v = lit_value(s, mpmath.mp)
+            bad = v is not None and v != 0 and not (mpmath.mpf("1e-30") <= abs(v) <= mpmath.mpf("1e30"))
+    except Exception:
+        bad = True
+    return ["int", 2] if bad else s
+
 def build(s):
     t = s[0]
     if t == "sym":
@@ -161,26 +212,38 @@ def build(s):
 
 # ----------------------------------------------------------------------------- dumps
 
-def exact_float(f):
-    sign, man, exp, _bc = f._mpf_
-    v = Fraction(int(man)) * (Fraction(2) ** int(exp))
-    return -v if sign else v
-
 class Unrepresentable(Exception):
     pass
+
+BIG_BITS = 1100      # constants beyond the double range are not written as Coq literals nor evaluated
+
+def exact_float(f):
+    sign, man, exp, _bc = f._mpf_
+    if (int(man) == 0 and int(exp) != 0) or abs(int(exp)) > BIG_BITS:      # mpmath's inf/nan encodings, huge exponents
+        raise Unrepresentable("Float outside the double range (or inf/nan)")
+    v = Fraction(int(man)) * (Fraction(2) ** int(exp))
+    return -v if sign else v
 
 def dump(e, neg_wanted=False, stats=None):
     """sympy object -> sexpr literal, reading type(e) and e.args only (plus e*(-1) where the converter may ask)."""
     if isinstance(e, sympy.Symbol):
         return f"(SSym {cstring(str(e))})"
     if isinstance(e, sympy.Integer):
+        if int(e).bit_length() > BIG_BITS:
+            raise Unrepresentable("Integer beyond the double range")
         return f"(SInt {cz(int(e))})"
     if isinstance(e, sympy.Float):
         v = exact_float(e)
-        if Fraction(float(e)) != v:
-            raise Unrepresentable("Float with more than 53 bits")
+        try:
+            fl = float(e)
+        except OverflowError:
+            raise Unrepresentable("Float that overflows a double")
+        if fl != fl or fl in (float("inf"), float("-inf")) or Fraction(fl) != v:
+            raise Unrepresentable("Float with more than 53 bits or outside the double range")
         return f"(SFloat {cq(v)})"
     if isinstance(e, sympy.Rational):
+        if int(e.p).bit_length() > BIG_BITS or int(e.q).bit_length() > BIG_BITS:
+            raise Unrepresentable("Rational beyond the double range")
         return f"(SRat {cz(e.p)} {int(e.q)}%positive)"
     if isinstance(e, sympy.core.numbers.ImaginaryUnit):
         return "SImag"
@@ -423,9 +486,9 @@ def gen(rng, tier):
     for _ in range(n):
         r = rng.random()
         if r < 0.55:
-            yield dict(kind="convert", spec=spec(rng, rng.randint(1, 5), 0.0), envseed=rng.randint(0, 10 ** 6))
+            yield dict(kind="convert", spec=tame(spec(rng, rng.randint(1, 5), 0.0)), envseed=rng.randint(0, 10 ** 6))
         elif r < 0.72:
-            yield dict(kind="convert", spec=spec(rng, rng.randint(1, 4), rng.choice([0.08, 0.2])), envseed=rng.randint(0, 10 ** 6))
+            yield dict(kind="convert", spec=tame(spec(rng, rng.randint(1, 4), rng.choice([0.08, 0.2]))), envseed=rng.randint(0, 10 ** 6))
         elif r < 0.82:
             yield dict(kind="translate", tree=rand_ntree(rng, rng.randint(1, 4)),
                        names=rng.sample(TABLE + ["log"], rng.randint(5, 11)))
@@ -502,6 +565,10 @@ def run_convert(inp):
             flagged = CUT_VIA_I
             if v1 is None:
                 continue                            # zoo/nan/ill-conditioned original here: no claim about the value
+            if refused and "OverflowError" in str(out if st != "ok" else back):
+                kind = "convert-overflow"           # Python-number arithmetic of the dialect left the double range: not modelled
+                compared += 1
+                break
             if refused:
                 ok, msg = False, f"{show(e)} is inside the grammar but was refused ({out if st != 'ok' else back})"
                 break
@@ -525,7 +592,10 @@ def run_convert(inp):
 def run_case(inp):
     kind = inp["kind"]
     if kind == "convert":
-        return run_convert(inp)
+        try:
+            return run_convert(inp)
+        except (OverflowError, Unrepresentable) as ex:   # a constant or value beyond the double range on the harness side
+            return dict(chk=None, oracle_ok=True, oracle_msg=f"{type(ex).__name__}: {ex}", kind="convert-overflow", nontrivial=False)
     if kind == "translate":
         names = inp["names"]
         t = build_ntree(inp["tree"])
